@@ -24,3 +24,38 @@ package sqlx
 //@   ensures [non-nil-means-no-commit-or-failed-commit] err != nil && ret(b, 1) == nil ==> calls(Commit) + calls(Rollback) == 1
 //@   ensures [fn-once] ret(b, 1) == nil ==> calls(fn) == 1
 //@   panic-ensures [panic-rolled-back] calls(Rollback) == 1 && calls(Commit) == 0
+
+// ---- rows are copied by column name through `db` tags ----
+
+// One field per step: the tag name is read from THIS value's own type at index i, the destination is the address
+// (or the pointer) of the value's field at the SAME index i, and the map entry binds exactly these two.
+//@ func getTaggedFieldValueMap
+//@   prop C11
+//@   opaque Deref, parseTagName
+//@   let key = ret(parseTagName)
+//@   loop 1 invariant 0 <= i && fresh(result)
+//@   loop 1 iteration-ensures [tag-of-the-same-field] calls(parseTagName) == 1 && calls(rt.Field) == 1 && arg(rt.Field, 0) == at_head(i) && arg(parseTagName, 0) == ret(rt.Field)
+//@   loop 1 iteration-ensures [value-of-the-same-field] calls(reflect.Indirect, v) == 1 && arg(ret(reflect.Indirect).Field, 1) == at_head(i)
+//@   loop 1 iteration-ensures [bound-by-name] has(result, key) && (calls(Addr) == 2 ==> result[key] == ret(ret(Addr, 0, 2).Interface)) && (calls(Addr) == 0 ==> result[key] == ret(valueField.Interface))
+//@   loop 1 iteration-ensures [next] i == at_head(i) + 1
+//@   ensures [type-of-the-value] calls(Deref) >= 1 && arg(Deref, 0, 1) == ret(v.Type)
+//@   ensures [untagged-field-means-positional] result1 == nil || result1 == ErrNotReadableValue
+
+// With tags: column i gets the destination tagged with its name, whatever the column order; unknown columns get a throw-away.
+//@ func mapStructFieldsIntoSlice
+//@   prop C11
+//@   opaque unwrapFields, getTaggedFieldValueMap, Deref
+//@   let tmap = taggedMap
+//@   loop 2 invariant -1 <= rangeindex && rangeindex <= len(columns) && len(values) == len(columns)
+//@   loop 2 iteration-ensures [by-column-name] has(tmap, at_head(columns[rangeindex + 1])) ==> values[at_head(rangeindex + 1)] == tmap[at_head(columns[rangeindex + 1])]
+//@   loop 2 iteration-ensures [unknown-column-discarded] !has(tmap, at_head(columns[rangeindex + 1])) ==> typeis(values[at_head(rangeindex + 1)], ptr(any)) && fresh(values[at_head(rangeindex + 1)].val)
+//@   ensures [strict-needs-all-fields] strict && len(columns) < len(ret(unwrapFields)) ==> result1 == ErrNotMatchDestination && result0 == nil && calls(getTaggedFieldValueMap) == 0
+//@   ensures [tag-error-passed-on] calls(getTaggedFieldValueMap) == 1 && ret(getTaggedFieldValueMap, 1) != nil ==> result1 == ret(getTaggedFieldValueMap, 1) && result0 == nil
+//@   ensures [one-destination-per-column] result1 == nil ==> len(result0) == len(columns)
+
+// A single-row query on an empty result reports the scanner's error, else ErrNotFound.
+//@ func unmarshalRow
+//@   prop C11
+//@   opaque mapStructFieldsIntoSlice, ValidatePtr
+//@   ensures [empty-result] !ret(scanner.Next) ==> calls(Scan) == 0 && (ret(scanner.Err) != nil ==> result == ret(scanner.Err)) && (ret(scanner.Err) == nil ==> result == ErrNotFound)
+//@   ensures [struct-by-columns] calls(mapStructFieldsIntoSlice) == 1 ==> arg(mapStructFieldsIntoSlice, 1) == ret(scanner.Columns, 0) && arg(mapStructFieldsIntoSlice, 2) == strict && (ret(mapStructFieldsIntoSlice, 1) != nil ==> result == ret(mapStructFieldsIntoSlice, 1) && calls(Scan) == 0) && (ret(mapStructFieldsIntoSlice, 1) == nil ==> calls(scanner.Scan) == 1 && arg(scanner.Scan, 0) == ret(mapStructFieldsIntoSlice, 0) && result == ret(scanner.Scan))
